@@ -1680,6 +1680,7 @@ METHOD_RULES = [
     (r'\.\s*lines\s*\(\s*\)\s*\.\s*count\s*\(\s*\)', 'vx_lines().len()', 'rename_whole', 'str.lines().count()->vx_lines().len()'),
     (r'\.\s*lines\s*\(\s*\)\s*\.\s*map\s*\(\s*\|\s*([a-z_]+)\s*\|\s*\1\s*\.\s*to_string\s*\(\s*\)\s*\)\s*\.\s*collect\s*\(\s*\)', 'vx_lines_owned()', 'rename_whole', 'str.lines().map(to_string).collect()->vx_lines_owned'),
     (r'\.\s*abs\s*\(\s*\)', 'vx_abs()', 'rename_whole', 'f64.abs()->vx_abs'),
+    (r'\.\s*as_deref\s*\(\s*\)', 'vx_as_deref()', 'rename_whole', 'Option<String>.as_deref()->vx_as_deref'),
     (r'\.\s*to_digit\s*\(\s*10\s*\)', 'vx_to_digit10()', 'rename_whole', 'char.to_digit(10)->vx_to_digit10'),
     (r'\.\s*replace\s*\(\s*\x27', 'vx_replace_char', 'rename_keep_tail', 'str.replace(char,_)->vx_replace_char'),
     (r'\.\s*extend\s*\(', 'vx_extend', 'rename', 'Vec.extend(vec)->vx_extend'),
